@@ -235,11 +235,12 @@ func paramWrittenToTar(c *Ctx, fn *ssa.Function, p *ssa.Parameter, depth int) bo
 }
 
 func checkC03(c *Ctx, r *Report) {
-	r.Rules = []string{"O1 every digest is fed by the stream that is shipped and read only after it is complete", "O2 apk digests sit below the compressor; datahash/signed digest are the segment writers' results", "F7 md5sums names the header that was written", "F8 mtree verbs bound to the matching fields; .PKGINFO first; one size value", "F9 size accumulators are fed from the copied entries", "F8-line every shipped entry type gets an mtree line", "shipped-F12-apk the apk segments shipped are the buffers that were hashed (imported from C10)", "F9-files-only directories and links add nothing to the installed size", "fresh-T6-no-carried-state no digest (or anything else) is kept in package-level state between builds (rule of C07)"}
+	r.Rules = []string{"O1 every digest is fed by the stream that is shipped and read only after it is complete", "O2 apk digests sit below the compressor; datahash/signed digest are the segment writers' results", "F7 md5sums names the header that was written", "F8 mtree verbs bound to the matching fields; .PKGINFO first; one size value", "F9 size accumulators are fed from the copied entries", "F8-line every shipped entry type gets an mtree line", "shipped-F12-apk the apk segments shipped are the buffers that were hashed (imported from C10)", "F9-files-only directories and links add nothing to the installed size", "fresh-T6-no-carried-state no digest (or anything else) is kept in package-level state between builds (rule of C07)", "F8-time the mtree entry's time is the time written to the member's header"}
 	r.Explanation = "Stream-coupling and ordering rules over go/ssa for every hash nfpm creates on a packaging path (internal/sign excluded). (O1) each hash must be fed in one of three coupled ways — a TeeReader on the very reader that io.Copy drains into the archive writer, an io.MultiWriter that also contains the archive/output writer and is the destination of one copy or the sink of the compressor, or Write of the same SSA value that is written to the archive — and never by a separate read of the data; every Sum is dominated by the completion of that feeding (the copy, or the Close of the compressor the hash sits under). (O2) in apk the hash is an element of the MultiWriter that is the gzip writer's sink, so it covers the bytes as shipped. (F7) the name printed into md5sums is the Name field of the header handed to WriteHeader. (F8) in the mtree line formats each key=%verb is bound to the like-named field, .PKGINFO's entry is put first, and the .PKGINFO size in the tar header and in the mtree is one value; digests go to the fields of their own algorithm. (F9) installed-size accumulators are fed from the entries' sizes, divided by 1024 for deb/ipk. Digest and size values themselves, and rpmpack's internal digests, are not computed."
 	r.Explanation += " (F8-line) the mtree line writer, evaluated for every entry type the archlinux payload writer ships, must reach a write. (shipped-F12-apk, imported from C10) the buffers the apk segments were hashed from are the ones concatenated into the package, all of them, on every path."
 	r.Explanation += " (F9-files-only) the payload writer is evaluated for every directory and link type: no addition whose addend derives from the entry's size is live with a value other than the constant zero."
 	r.Explanation += " (fresh-T6) rule of C07: a digest cached per source path would describe an earlier build's bytes."
+	r.Explanation += " (F8-time) each MtreeEntry.Time (below .Unix()) is the ModTime expression of the tar header built in the same block."
 	r.Assumptions = []string{
 		"hash.Hash, io.TeeReader, io.MultiWriter and io.Copy behave as documented",
 		"rpm header/payload digests and sizes are computed inside rpmpack over the payload it writes (dependency)",
@@ -1175,6 +1176,65 @@ func checkMtreeSizeAgrees(c *Ctx, r *Report, pk *Packager) {
 			fmt.Sprintf("the .MTREE entry takes its size from %s, the tar headers of this function from {%s}: when the two can differ the line describes a member of another length", shorten(e, 80), shorten(joinSorted(hdr), 160)))
 	}
 	r.Floor("F8-size", n, 1)
+	// the same for the time: the .MTREE entry states the modification time
+	// the member's header carries (paired within the block that builds both)
+	type tstore struct {
+		st   *ssa.Store
+		expr string
+	}
+	var hdrT, mtT []tstore
+	unixOf := func(v ssa.Value) ssa.Value {
+		// x.Unix() -> x
+		if call, ok := v.(*ssa.Call); ok {
+			if o := calleeObj(call); o != nil && o.Name() == "Unix" && len(call.Call.Args) == 1 {
+				return call.Call.Args[0]
+			}
+		}
+		return v
+	}
+	forEachInstr(w, func(in ssa.Instruction) {
+		st, ok := in.(*ssa.Store)
+		if !ok {
+			return
+		}
+		fa, ok := st.Addr.(*ssa.FieldAddr)
+		if !ok {
+			return
+		}
+		switch {
+		case isNamed(derefType(fa.X.Type()), "archive/tar", "Header") && fieldName(fa.X.Type(), fa.Field) == "ModTime":
+			hdrT = append(hdrT, tstore{st, valueExpr(c, st.Val, 0)})
+		case strings.HasSuffix(derefType(fa.X.Type()).String(), "MtreeEntry") && fieldName(fa.X.Type(), fa.Field) == "Time":
+			mtT = append(mtT, tstore{st, valueExpr(c, unixOf(st.Val), 0)})
+		}
+	})
+	nt := 0
+	for _, m := range mtT {
+		var same []string
+		all := map[string]bool{}
+		for _, h := range hdrT {
+			all[h.expr] = true
+			if h.st.Block() == m.st.Block() {
+				same = append(same, h.expr)
+			}
+		}
+		if len(all) == 0 {
+			continue
+		}
+		nt++
+		ok := all[m.expr]
+		if len(same) > 0 {
+			ok = false
+			for _, e := range same {
+				if e == m.expr {
+					ok = true
+				}
+			}
+		}
+		r.Check(ok, "F8-time", fmt.Sprintf("archlinux: mtree time#%d is the time written to the member's header", nt), c.instrPos(m.st),
+			fmt.Sprintf("the .MTREE entry takes its time from %s, the header built beside it from {%s}: the line would state another modification time than the member carries", shorten(m.expr, 80), shorten(strings.Join(same, ","), 160)))
+	}
+	r.Floor("F8-time", nt, 2)
 }
 
 // appliesHelperTo: f applies the files helper to its parameter p - itself, or
